@@ -439,6 +439,12 @@ def run(ctx):
     ctx.extra["spec_behaviours_not_reproduced"] = drift
     ctx.impl_drift += drift     # the Sim spec predicts deliveries with the code-shaped algorithm (ImplDelivery)
     ctx.extra["exhaustive_small_histories"] = nexh
+    # boundary observation, outside the property's domain (an event "with a namespace"): the predicate drops events
+    # whose namespace is empty whatever their level (documented in the class docstring), although
+    # logLevelForNamespace("") answers the default level.  Recorded, not judged.
+    from twisted.logger import LogLevelFilterPredicate, LogLevel, PredicateResult
+    ctx.extra["empty_namespace_critical_event_dropped"] = (
+        LogLevelFilterPredicate(defaultLogLevel=LogLevel.info)({"log_namespace": "", "log_level": LogLevel.critical}) is PredicateResult.no)
     ctx.note_traces(traces)
     ctx.log("recorded %d real executions, %d events" % (len(traces), sum(len(t["ev"]) for t in traces)))
     rej = ctx.validate("LogObsTrace", traces, shard_size=ctx.pick(800, 3000))
